@@ -279,6 +279,11 @@ def check(ctx):
     import core as _core, c07 as _c07
     nh = _core.adopt(ctx, _c07, lambda o: o["rule"] == "C07.h", "C01.h")
     ctx.floor("C01.h", nh, 8, "shared handle-linearity obligations (C07.h): a registration stores the handle it is given")
+    # a revoked registration is not dispatched to and a live one is not lost to someone else's revocation: the token names
+    # every registered bundle member, and a revocation removes exactly the matching entries (shared with C06.b / C06.e)
+    import c06 as _c06
+    ni = _core.adopt(ctx, _c06, lambda o: o["rule"] in ("C06.b", "C06.e"), "C01.i")
+    ctx.floor("C01.i", ni, 30, "shared revoke-exactness obligations (C06.b/e)")
     impls = trigger_impls(prog)
     ctx.floor("C01.a", len(impls), 11, "impls of ReactionTrigger")
     kinds = [k for k in (kind_of_trigger(ctx, prog, im) for im in impls) if k]
